@@ -35,6 +35,16 @@ def ref_normalized(s: str) -> bool:
     return ref_valid(s) and ref_fold(s) == s
 
 
+_DRV = None
+
+
+def _drv():
+    global _DRV
+    if _DRV is None:
+        _DRV = core.Driver()
+    return _DRV
+
+
 def _names():
     from packaging.utils import InvalidName, canonicalize_name, is_normalized_name
     return InvalidName, canonicalize_name, is_normalized_name
@@ -42,6 +52,15 @@ def _names():
 
 def random_name(rng):
     k = rng.random()
+    if k < 0.03:      # long names: a length-dependent shortcut in the code must not go unnoticed
+        s = rng.choice("-_.").join(rng.choice(WORDS) for _ in range(rng.randrange(20, 120)))
+        j = rng.randrange(4)
+        if j == 0:
+            s += rng.choice(["-", "_", ".", "\n", " ", "é", "--x", "A"])
+        elif j == 1:
+            i = rng.randrange(len(s))
+            s = s[:i] + rng.choice(["--", "__", "A", " ", "ſ"]) + s[i:]
+        return s.lower() if rng.random() < 0.5 else s
     if k < 0.55:      # words joined by separator runs, optional edge runs / trailing newline
         n = rng.choice([1, 1, 2, 2, 3, 4, 6])
         s = ""
@@ -84,7 +103,7 @@ class C13(Prop):
     theorems = ["C13.tables_as_modelled", "C13.canon_is_fold", "C13.canon_idem", "C13.canon_eq_iff_fold_eq",
                 "C13.runs_are_maximal", "C13.runs_collapsed",
                 "C13.valid_classes_verified", "C13.normalized_classes_verified", "C13.validate_cert", "C13.valid_sim",
-                "C13.normalized_sim", "C13.validate_language", "C13.validName_iff_spec", "C13.validate_accepts_iff",
+                "C13.normalized_sim", "C13.normalized_cert", "C13.normalized_language", "C13.validate_language", "C13.validName_iff_spec", "C13.validate_accepts_iff",
                 "C13.normalized_iff_valid_fixed_point", "C13.normalized_iff_spec", "C13.canon_of_valid_is_normalized",
                 "Names.tableOk_true", "Names.lower_idem", "Rx.accepts_eq_runK", "Rx.simulates_sound", "Rx.equiv1_sound"]
     rule = ("names = every string over the seven-class partition (lower-alnum, '-', '_', '.', upper, newline, other; "
@@ -176,6 +195,14 @@ class C13(Prop):
 
     # ---- laws on the real code
     def gen_laws(self, rng, n):
+        # a shortest string on which a regenerated pattern and its spec regex differ, if the certificates broke
+        for kind, law in (("NameValidRx", "validate_iff_core_metadata_name"), ("NormalizedRx", "normalized_iff_valid_fixed_point")):
+            try:
+                a = _drv().ask("name.distinguish\t" + kind)
+            except Exception:
+                a = "none"
+            if a.startswith("word "):
+                yield (law, {"s": core.dec(a[5:])})
         # the shapes §8 row 2 suspects, first
         for s in ["foo\n", "a--b", "ſ", "a\n", "a--a", "K9", "a-b", "A.b_c", "", "-", "a-", "-a"]:
             for law in ("validate_iff_core_metadata_name", "normalized_iff_valid_fixed_point", "canon_is_fold"):
